@@ -255,7 +255,7 @@ PROPS = {
                  "the parameter is relative to, designates a location outside bucket A's storage; distinct by the full tuple."),
         "assumptions": ["in-process engine replicates runGateway wiring; TestC04P uses the shipped binary"],
         "jobs": [
-            {"run": "TestC04A", "quick": 14000, "thorough": 500000, "shards_quick": 12, "shards_thorough": 16},
+            {"run": "TestC04A", "quick": 42000, "thorough": 800000, "shards_quick": 12, "shards_thorough": 16},
             {"run": "TestC04P", "quick": 1600, "thorough": 60000, "shards_quick": 4, "shards_thorough": 16},
         ],
     },
